@@ -161,7 +161,8 @@ Definition rebase_verdict (b : basis_rel) : option bool :=
 Record env := mk_env {
   e_accepting : bool;     (* settings.AcceptingContracts *)
   e_valid : bool;         (* prices, request validation, contract lock, challenge signature *)
-  e_elem_found : bool;    (* renew/refresh: contractor.V2FileContractElement *)
+  e_elem_found : bool;    (* renew/refresh: contractor.V2FileContractElement finds the element
+                             (false: lookup error, or the formation is still unconfirmed) *)
   e_basis : basis_rel;
   e_elem_rebase : option bool; (* renew/refresh: elementBasis <> basis and the verdict *)
   e_send_ok : bool;       (* writing the host inputs succeeded *)
@@ -173,6 +174,7 @@ Record env := mk_env {
 
 (** calls the handler makes on the wallet, chain manager and contractor, in order *)
 Inductive hcall :=
+| CElement (ok : bool) (* renew/refresh: contractor.V2FileContractElement, before any funding *)
 | CFund (n : nat) | CFundFail | CUpdate (ok : bool) | CElemUpdate (ok : bool)
 | CPoolParents (ok : bool) | CTxSet (ok : bool) | CPoolSet (ok : bool)
 | CRecord | CBroadcast | CRelease (n : nat)
@@ -274,7 +276,9 @@ Definition exec (k : kind) (e : env) (m1 : option req) (m2 : option rsigs)
   | SAccepting => cont (e_accepting e) x
   | SValidate => cont (e_valid e) x
   | SRenterFunding => cont (negb (psum (x_rin x) <? ct_rfund (x_terms x))) x
-  | SElement => cont (e_elem_found e) x
+  (* server.go renew 1117-1120 / refresh 936-939: looked up, and its error returned, before
+     FundV2Transaction reserves anything *)
+  | SElement => cont (e_elem_found e) (add_call x (CElement (e_elem_found e)))
   | SFund =>
       match fund (h_wallet (x_h x)) (ct_hfund (x_terms x)) false with
       | None => inr (add_call x CFundFail)
